@@ -56,6 +56,17 @@ claim("C02", "other",
       "decision-table extraction from MIR + ordering enumeration; known finding by abstract ordering class",
       "DESIGN.md §3 C02")
 
+claim("C06", "other",
+      "Per-operation decision tables extracted from MIR and compared with the specified ones for every status variant / "
+      "ordering: status tables, visibility of every public filtered read (get table; filter closures of key_values and "
+      "iter_prefix; range bound and starts_with cut; derived readers), GC predicate (removed iff marked and now >= t+grace, "
+      "boundary included; max-fold of removed versions from the current watermark; stored back), effects of delete / "
+      "delete_after_ttl / set / set_with_ttl.",
+      "Not decided: equality with a reference map over operation SEQUENCES (composition of the per-operation tables with "
+      "BTreeMap/iterator semantics, which are assumed) and tokio::time behaviour.",
+      "decision-table extraction from MIR (incl. closure bodies) + variant/ordering enumeration + call-graph reachability",
+      "DESIGN.md §3 C06")
+
 ALL = ["C%02d" % i for i in range(1, 21)]
 PENDING_REASON = "check under construction in this session (rules designed in DESIGN.md §3, not yet armed)"
 
